@@ -33,6 +33,10 @@
 
 #include <limits.h>
 #include <stdio.h>
+#include <unistd.h>
+#include <sys/uio.h>
+#include <sys/stat.h>
+#include <fcntl.h>
 #include <stdlib.h>
 #include <string.h>
 
@@ -55,8 +59,9 @@ int snoopy_output_fileoutput (char const * const logMessage, char const * const 
 {
     char   filePathBuf[PATH_MAX] = {'\0'};
     char * filePath = filePathBuf;
-    FILE  *fp;
-    int    charCount;
+    int    fd;
+    struct iovec record[2];
+    ssize_t charCount;
 
     // Check if output file is properly configured
     if (0 == strcmp(arg, "")) {
@@ -66,14 +71,19 @@ int snoopy_output_fileoutput (char const * const logMessage, char const * const 
     // Parse the output file specification (i.e. for %{datetime} or similar tags)
     snoopy_message_generateFromFormat(filePath, PATH_MAX, PATH_MAX, arg);
 
-    // Try to open file in append mode
-    fp = fopen(filePath, "a");
-    if (NULL == fp) {
+    // Try to open file in append mode (same semantics as fopen(path, "a"))
+    fd = open(filePath, O_WRONLY | O_CREAT | O_APPEND, S_IRUSR | S_IWUSR | S_IRGRP | S_IWGRP | S_IROTH | S_IWOTH);
+    if (-1 == fd) {
         return SNOOPY_OUTPUT_FAILURE;
     }
 
-    // Try to print to file
-    charCount = fprintf(fp, "%s\n", logMessage);
-    fclose(fp);
-    return charCount;
+    // Hand the whole record (message + newline) to the OS in ONE append. stdio would cut records of 4096
+    // bytes or more into several write() calls, between which another process or thread can append its own.
+    record[0].iov_base = (void *) logMessage;
+    record[0].iov_len  = strlen(logMessage);
+    record[1].iov_base = "\n";
+    record[1].iov_len  = 1;
+    charCount = writev(fd, record, 2);
+    close(fd);
+    return (int) charCount;
 }
